@@ -7,7 +7,8 @@ from collections import Counter
 
 LEVEL = "model_checking"
 
-RAISERS = {"vf.fail", "vf.fail_key", "redun.throw", "vf.reraise"}
+RAISERS = {"vf.fail", "vf.fail_key", "redun.throw", "vf.reraise", "vf.fail_payload"}
+PAYLOADS = ["plain", "lambda", "lock", "generator", "file", "module"]
 
 
 def job_rows(db, execution_index):
@@ -106,6 +107,44 @@ def check_chunk(arg):
     return {"viol": viol[:40], "stats": stats.as_dict(), "states": stats.states, "ntrans": len(stats.transitions), "n_fail": n_fail, "reexec": reexec}
 
 
+def payload_leg(ctx):
+    """Errors whose payload cannot be serialized (in each of the ways pickle refuses) still propagate, are recorded as failed and re-execute."""
+    import wf.tasks as T
+    from engine import evloop
+
+    n = 0
+    for kind in PAYLOADS:
+        for depth, root in enumerate((T.fail_payload, T.mid_payload, T.top_payload)):
+            env = evloop.Env([])
+            case = {"payload": kind, "depth": depth}
+            try:
+                outs, rows, calls = [], [], []
+                for i in range(2):
+                    before = Counter(env.ctl.func_calls)
+                    outs.append(env.run(root(kind, 7)))
+                    rows.append(job_rows(env.db_path, i))
+                    calls.append(Counter(env.ctl.func_calls) - before)
+            except Exception as e:  # noqa: BLE001
+                ctx.violation(f"payload:scheduler-crashes:{kind}", case, f"{case}: {type(e).__name__}: {e}")
+                continue
+            finally:
+                env.close()
+            n += 1
+            want = ("err", "PayloadError", f"payload:{kind}:7")
+            for i in range(2):
+                if tuple(outs[i][:3]) != want:
+                    ctx.violation(f"payload:wrong-error:{kind}", case, f"{case} run {i + 1}: {outs[i]!r}, expected {want!r}")
+                    break
+                ok, why = failed_chain_ok(rows[i])
+                if not ok:
+                    ctx.violation(f"payload:failure-not-recorded:{kind}", case, f"{case} run {i + 1}: {why}")
+                    break
+            else:
+                if not calls[1].get("vf.fail_payload"):
+                    ctx.violation(f"payload:failure-replayed-from-cache:{kind}", case, f"{case}: run 2 did not call the failing task again ({dict(calls[1])})")
+    return n
+
+
 def run(ctx):
     from engine import progs, seams
     from engine.common import check_harness_errors
@@ -118,15 +157,17 @@ def run(ctx):
     res = ctx.pmap(check_chunk, ctx.rotate(work), chunksize=1)
     check_harness_errors(res)
     ctx.add_results(res)
+    n_payload = payload_leg(ctx)
     states = set().union(*[r["states"] for r in res])
     execs = sum(r["stats"]["executions"] for r in res)
     return {"coverage": {
         "states": len(states), "transitions": sum(r["ntrans"] for r in res), "traces_validated_against_impl": execs,
         "failing_programs": len(failing), "failing_executions_checked": sum(r["n_fail"] for r in res),
-        "re_executions_observed": sum(r["reexec"] for r in res), "exhaustive": True,
+        "re_executions_observed": sum(r["reexec"] for r in res), "payload_runs": n_payload, "exhaustive": True,
         "rule": f"every generated program of size <= 4 that can fail (error-raising leaves at any depth, inside containers and control "
         "forms, catch with non-matching class, recover that re-raises), executed twice on one backend under the default schedule (size <= 3: every "
         "schedule within the deviation bound); oracle: outcome is admissible, root and failing job with its whole ancestor chain are recorded with "
-        "an ErrorValue result, and the failing task function runs again in the second execution",
+        "an ErrorValue result, and the failing task function runs again in the second execution; plus errors carrying each of 6 payload kinds "
+        "(serializable, and unserializable in every way pickle refuses: AttributeError/PicklingError/TypeError) raised at depth 0-2",
         "samples": [repr(p) for p in failing[:3]],
     }, "assumptions": ["see C01 for the program family and reference interpreter"]}
